@@ -35,6 +35,9 @@ enum FaultKind {
     TruncMidLine,    // cut inside the last line
     Garbage,         // overwrite with bytes that are not a cache file
     Rollback(u64),   // restore the version the file had k operations ago
+    /// overwrite the first bytes of the k-th line / record from the end (0 = the last one) with bytes that do not
+    /// parse; length, line structure and every other line stay as they are (a damaged record in the middle of a file)
+    GarbageLine(u64),
 }
 
 #[derive(Clone, Debug, Serialize, Deserialize)]
@@ -50,6 +53,8 @@ enum Op {
     Compiled,
     Restart,
     Fault { target: Target, kind: FaultKind },
+    /// the whole `continuity_streams/` directory is lost (= Delete on every cache file of every thread)
+    LoseDir,
 }
 
 #[derive(Clone, Debug, Serialize, Deserialize, PartialEq)]
@@ -149,6 +154,60 @@ struct Built {
     writer_checks: u64,
     writer_violations: Vec<(usize, Target, String)>, // (op index, file, what)
     ord_steps: Vec<String>,                          // Coq `ord_step` terms: every message append, ordinal index before / after
+    prov: Prov,
+}
+
+// ---------------------------------------------------------------- fault provenance
+// Which faults can still explain the state of a cache file at query time ON TODAY'S CODE.  A fault on file f stays
+// "live" until (1) f is observed to be the exact projection of the truth stream again after an operation (nothing of
+// the fault is left in it), or (2) the history passes a position where today's code re-synchronises every cache
+// file with the log whatever it finds: the first append to the thread after an authority restart, when the full
+// sidecar's last frame is not the log's last frame of the thread (missing / torn / lagging sidecar:
+// load_next_seq_for -> rebuild_best_effort, /repo 0b0d2b0).  Faults applied while the store object is alive, and
+// faults across a restart that leave the full sidecar's tail equal to the log's head, are NOT reconciled by
+// today's code: those are the provenances of the open S3/S4 classes.  A wrong answer in a state whose live faults
+// cannot explain it is a new violation (e.g. the re-sync no longer fires).
+#[derive(Clone, Debug, Default)]
+struct Prov {
+    live: BTreeMap<Target, Vec<&'static str>>,
+    /// op indices at which today's code re-synchronises all caches (position (2))
+    resync_at: Vec<usize>,
+    /// ... and the files were nevertheless not the projection afterwards (diagnostic; not a violation by itself)
+    resync_not_observed: Vec<usize>,
+    tracked: bool, // false for long cases (no snapshots): no fault is ever live there
+}
+fn kind_name(k: FaultKind) -> &'static str {
+    match k {
+        FaultKind::Delete => "Delete",
+        FaultKind::TruncLines(_) => "TruncLines",
+        FaultKind::TruncMidLine => "TruncMidLine",
+        FaultKind::Garbage => "Garbage",
+        FaultKind::Rollback(_) => "Rollback",
+        FaultKind::GarbageLine(_) => "GarbageLine",
+    }
+}
+/// the seq of the last frame of a full sidecar, as a reader of its tail sees it (None: absent / empty / last line unreadable)
+fn ref_tail_seq(raw: &Option<Vec<u8>>, id: &str) -> Option<u64> {
+    let raw = raw.as_ref()?;
+    let line = raw.split(|b| *b == b'\n').filter(|l| !l.iter().all(|b| b.is_ascii_whitespace())).last()?;
+    let ev = serde_json::from_slice::<Event>(line).ok()?;
+    if ev.stream_kind() != StreamKind::Continuity || ev.stream_id() != id {
+        return None;
+    }
+    Some(ev.seq)
+}
+/// the file is exactly what a rebuild from the truth stream writes (absent counts when there is nothing to hold)
+fn is_projection(t: Target, bytes: &Option<Vec<u8>>, truth: &[(Event, Vec<u8>)]) -> bool {
+    let nothing = !truth.iter().any(|(e, _)| kind_in(t, e));
+    match bytes {
+        None => nothing,
+        Some(b) => match t {
+            Target::Full | Target::Mr | Target::Comp => *b == proj_bytes(truth, t),
+            Target::Ord => ord_records(b).map(|rs| rs.iter().map(|r| r.0).collect::<Vec<_>>() == truth.iter().filter(|(e, _)| kind_in(t, e)).map(|(e, _)| e.seq).collect::<Vec<_>>()).unwrap_or(false),
+            Target::CompIdx => idx_entries(b).map(|es| es == ckpt_entries(truth)).unwrap_or(false),
+            _ => false,
+        },
+    }
 }
 
 // ---------------------------------------------------------------- write conformance of the cache writers
@@ -372,6 +431,34 @@ fn apply_fault(root: &Path, id: &str, target: Target, kind: FaultKind, versions:
             let f = std::fs::OpenOptions::new().write(true).open(&p).unwrap();
             f.set_len((bytes.len() - cut) as u64).unwrap();
         }
+        FaultKind::GarbageLine(k) => {
+            let Ok(mut bytes) = std::fs::read(&p) else { return };
+            const JUNK: &[u8] = b"#\x00\xffgarbage####";
+            let (start, len) = if binary {
+                let (hdr, rec) = if target == Target::Ord { (32usize, 24usize) } else { (0usize, 40usize) };
+                if bytes.len() < hdr + rec {
+                    return;
+                }
+                let nrec = (bytes.len() - hdr) / rec;
+                let i = nrec - 1 - (k as usize).min(nrec - 1);
+                (hdr + i * rec, rec)
+            } else {
+                let mut starts: Vec<usize> = vec![0];
+                starts.extend(bytes.iter().enumerate().filter(|(_, b)| **b == b'\n').map(|(i, _)| i + 1));
+                if starts.last() == Some(&bytes.len()) {
+                    starts.pop();
+                }
+                if starts.is_empty() {
+                    return;
+                }
+                let i = starts.len() - 1 - (k as usize).min(starts.len() - 1);
+                let end = starts.get(i + 1).copied().unwrap_or(bytes.len());
+                (starts[i], (end - starts[i]).saturating_sub(1)) // never the terminator
+            };
+            let n = JUNK.len().min(len);
+            bytes[start..start + n].copy_from_slice(&JUNK[..n]);
+            std::fs::write(&p, bytes).unwrap();
+        }
         FaultKind::Rollback(k) => {
             let n = versions.len();
             if n == 0 {
@@ -407,6 +494,9 @@ fn build(case: &Case) -> Built {
     let mut writer_checks = 0u64;
     let mut writer_violations: Vec<(usize, Target, String)> = vec![];
     let mut ord_steps: Vec<String> = vec![];
+    let mut prov = Prov { tracked: versioned, ..Default::default() };
+    let mut restart_pending = false; // a restart happened and the thread has not been appended to since
+    let mut truth_before: Vec<u64> = truth_lines(&root, &id).iter().map(|(e, _)| e.seq).collect();
     let mut last_state: Option<(BTreeMap<Target, Option<Vec<u8>>>, BTreeMap<Target, bool>)> =
         if versioned { Some((file_versions(&root, &id), TARGETS.iter().map(|t| (*t, target_path(&root, &id, *t).exists())).collect())) } else { None };
     for (opi, op) in case.ops.iter().enumerate() {
@@ -430,7 +520,7 @@ fn build(case: &Case) -> Built {
                 if runs.is_empty() {
                     Ok(())
                 } else {
-                    let (run, m) = runs[(*msg as usize) % runs.len()].clone();
+                    let (run, m) = if *msg == u64::MAX { runs.last().unwrap().clone() } else { runs[(*msg as usize) % runs.len()].clone() };
                     st.append_run_ended(&id, &m, &run, "completed".into(), "user".into(), "cli".into()).map(|_| ())
                 }
             }
@@ -465,10 +555,19 @@ fn build(case: &Case) -> Built {
             Op::Restart => {
                 drop(o);
                 o = open(&root);
+                restart_pending = true;
                 Ok(())
             }
             Op::Fault { target, kind } => {
                 apply_fault(&root, &id, *target, *kind, &versions, &present);
+                prov.live.entry(*target).or_default().push(kind_name(*kind));
+                Ok(())
+            }
+            Op::LoseDir => {
+                let _ = std::fs::remove_dir_all(streams_dir(&root));
+                for t in TARGETS {
+                    prov.live.entry(t).or_default().push("Delete");
+                }
                 Ok(())
             }
         };
@@ -478,10 +577,37 @@ fn build(case: &Case) -> Built {
         if versioned {
             let now = file_versions(&root, &id);
             let now_present: BTreeMap<Target, bool> = TARGETS.iter().map(|t| (*t, target_path(&root, &id, *t).exists())).collect();
-            if !matches!(op, Op::Fault { .. }) {
+            if !matches!(op, Op::Fault { .. } | Op::LoseDir) {
                 if let Some((was, was_present)) = &last_state {
                     let truth = truth_lines(&root, &id);
                     let truth_valid = truth.iter().enumerate().all(|(i, (e, _))| e.seq == i as u64);
+                    // ---- fault provenance
+                    let appended = truth.len() > truth_before.len();
+                    let mut resynced = false;
+                    if restart_pending && appended {
+                        restart_pending = false;
+                        let full_readable = !was_present[&Target::Full] || was[&Target::Full].is_some();
+                        if full_readable && ref_tail_seq(&was[&Target::Full], &id) != truth_before.last().copied() {
+                            prov.live.clear();
+                            prov.resync_at.push(opi);
+                            resynced = true;
+                        }
+                    }
+                    let mut all_proj = true;
+                    for t in CONFORM_TARGETS {
+                        if now_present[&t] && now[&t].is_none() {
+                            continue; // too big to snapshot
+                        }
+                        if is_projection(t, &now[&t], &truth) {
+                            prov.live.remove(&t);
+                        } else {
+                            all_proj = false;
+                        }
+                    }
+                    if resynced && !all_proj {
+                        prov.resync_not_observed.push(opi);
+                    }
+                    truth_before = truth.iter().map(|(e, _)| e.seq).collect();
                     if let (Op::Msg { .. }, true, true) = (op, r.is_ok(), truth_valid) {
                         let big = |m: &BTreeMap<Target, Option<Vec<u8>>>, pr: &BTreeMap<Target, bool>| pr[&Target::Ord] && m[&Target::Ord].is_none();
                         if let (Some((ev, _)), false, false) = (truth.iter().find(|(e, _)| Some(&e.id) == messages.last()), big(was, was_present), big(&now, &now_present)) {
@@ -508,7 +634,7 @@ fn build(case: &Case) -> Built {
         }
     }
     drop(o);
-    Built { scratch, id, messages, op_errors: errs, writer_checks, writer_violations, ord_steps }
+    Built { scratch, id, messages, op_errors: errs, writer_checks, writer_violations, ord_steps, prov }
 }
 
 // ---------------------------------------------------------------- queries
@@ -789,6 +915,7 @@ struct Coherence {
     full: FileState,
     full_stale_prefix: bool,
     full_good_lines_not_contiguous: bool, // every line is a truth line, but the seqs are not 0,1,2,.. (gap after a roll-back + append, or a re-created suffix)
+    full_every_line_parses: bool,         // present and every non-blank line parses as a frame of this thread (the header-level rebuild of a derived sidecar succeeds)
     mr: FileState,
     comp: FileState,
     compidx: FileState,
@@ -798,32 +925,34 @@ struct Coherence {
 fn coherence(root: &Path, id: &str, a: &Abs) -> Coherence {
     let (full, pre) = classify_full(root, id, a);
     let gap = abstract_full(root, id, a).map(|ls| !ls.is_empty() && ls.iter().all(|(g, _)| *g) && !ls.iter().enumerate().all(|(i, (_, s))| *s == i as u64)).unwrap_or(false);
-    Coherence { truth_valid: a.truth.iter().enumerate().all(|(i, e)| e.seq == i as u64), full, full_stale_prefix: pre, full_good_lines_not_contiguous: gap, mr: classify_derived_jsonl(root, id, a, Target::Mr), comp: classify_derived_jsonl(root, id, a, Target::Comp), compidx: classify_compidx(root, id, a), ord: classify_ord(root, id, a), ord_tail_coherent: ord_tail_coherent(root, id, a) }
+    let parses = std::fs::read(target_path(root, id, Target::Full)).ok().map(|raw| parsed_lines(&raw, id).is_some()).unwrap_or(false);
+    Coherence { full_every_line_parses: parses, truth_valid: a.truth.iter().enumerate().all(|(i, e)| e.seq == i as u64), full, full_stale_prefix: pre, full_good_lines_not_contiguous: gap, mr: classify_derived_jsonl(root, id, a, Target::Mr), comp: classify_derived_jsonl(root, id, a, Target::Comp), compidx: classify_compidx(root, id, a), ord: classify_ord(root, id, a), ord_tail_coherent: ord_tail_coherent(root, id, a) }
 }
-/// executable class of a fast/truth disagreement
-/// fault kinds applied to any of `targets` in the history ("Delete", "TruncLines", "TruncMidLine", "Garbage", "Rollback")
-fn faults_on(ops: &[Op], targets: &[Target]) -> Vec<&'static str> {
-    ops.iter()
-        .filter_map(|o| match o {
-            Op::Fault { target, kind } if targets.contains(target) => Some(match kind {
-                FaultKind::Delete => "Delete",
-                FaultKind::TruncLines(_) => "TruncLines",
-                FaultKind::TruncMidLine => "TruncMidLine",
-                FaultKind::Garbage => "Garbage",
-                FaultKind::Rollback(_) => "Rollback",
-            }),
-            _ => None,
-        })
-        .collect()
-}
-/// The open classes are keyed twice: by the file state the readers meet (computed from the files) AND by how such a
-/// state arises on today's code (the fault kinds in the history; the writers themselves are held to the reference
-/// write semantics by the write-conformance check).  A disagreement in a state that the listed faults cannot
-/// produce is reported under the generic class, i.e. as a new violation.
-fn classify_violation(c: &Coherence, fast: &Ans, truth: &Ans, q: &Q, ops: &[Op]) -> String {
-    let any = |ts: &[Target], kinds: &[&str]| faults_on(ops, ts).iter().any(|k| kinds.contains(k));
+/// Executable class of a fast/truth disagreement.
+/// The open classes are keyed twice: by the file state the readers meet (computed from the files) AND by the fault
+/// provenance that produces such a state on today's code (`Prov::live`: the faults on that file that today's code has
+/// not reconciled since — see `Prov`; the writers themselves are held to the reference write semantics by the
+/// write-conformance check).  A disagreement in a state that its live faults cannot explain is reported under the
+/// generic class, i.e. as a new violation.
+///
+/// class / file state at query time / live faults (today's provenance)
+/// S3  full_sidecar_wellformed_stale_prefix: full = proper prefix of truth, all lines good /
+///     Full: TruncLines | Rollback (alive, or across a restart with no append since)
+/// S4  derived_sidecar_wellformed_not_projection: mr/comp parse, != projection /
+///     that file: Delete | TruncLines | Rollback (+ an append re-created / extended it)
+/// S4c derived_sidecar_zero_length_accepted: mr/comp exists with 0 lines / that file: TruncLines
+/// S4b derived_index_wellformed_not_projection: comp.idx / msgord parse (msgord: last record = last message), != projection /
+///     that file: Delete | TruncLines | Rollback, or the sidecar it indexes: any
+/// S3c compile_window_read_accepts_noncontiguous_full_sidecar: full: every line good, seqs not contiguous /
+///     Full: Delete | TruncLines | Rollback (then appended to, alive); compile only
+/// S4d derived_sidecar_rebuilt_from_unvalidated_full_sidecar: mr/comp absent, full present, EVERY line parses, != truth /
+///     Full: any (+ the derived file lost); cut points / status / compile only
+/// Every fault is dropped from `live` at the first append after a restart that finds the full sidecar's tail behind
+/// (or unreadable / missing), because today's code rebuilds everything there.
+fn classify_violation(c: &Coherence, fast: &Ans, _truth: &Ans, q: &Q, prov: &Prov) -> String {
+    let any = |ts: &[Target], kinds: &[&str]| ts.iter().any(|t| prov.live.get(t).map(|ks| ks.iter().any(|k| kinds.contains(k))).unwrap_or(false));
     const LOSSY: [&str; 3] = ["Delete", "TruncLines", "Rollback"]; // faults that leave a well-formed file (or none, re-created by the next append)
-    const ANYK: [&str; 5] = ["Delete", "TruncLines", "TruncMidLine", "Garbage", "Rollback"];
+    const ANYK: [&str; 6] = ["Delete", "TruncLines", "TruncMidLine", "Garbage", "Rollback", "GarbageLine"];
     let qn = match q {
         Q::Replay => "replay",
         Q::CutPoints { .. } => "cut_points",
@@ -842,23 +971,14 @@ fn classify_violation(c: &Coherence, fast: &Ans, truth: &Ans, q: &Q, ops: &[Op])
         return "panic".into();
     }
     if !c.truth_valid {
-        // S3's second half: after a restart on a stale sidecar load_next_seq_for re-issued a seq => the truth
-        // stream itself no longer validates (C01/C05 own that defect; here it only explains the disagreement)
+        // (fixed, 0b0d2b0) after a restart on a stale sidecar load_next_seq_for re-issued a seq => the truth stream
+        // itself no longer validates
         return "truth_stream_seq_reissued_after_stale_sidecar".into();
     }
     if c.full == FileState::WellFormedDiffers && c.full_stale_prefix && any(&[Target::Full], &["TruncLines", "Rollback"]) {
         return "full_sidecar_wellformed_stale_prefix".into();
     }
-    if let (Q::Compile { .. }, Ans::Ok(f), Ans::Ok(t)) = (q, fast, truth) {
-        // C08's finding (builder compile): with the full sidecar unusable the compile input takes the head seq from
-        // the last line of the messages+runs sidecar, so from_seq stops at the newest message / run-ended frame
-        if c.full != FileState::Exact && any(&[Target::Full], &ANYK) && f["from_seq"].as_u64() < t["from_seq"].as_u64() && f["from_message_id"] == t["from_message_id"] {
-            return "compile_head_seq_taken_from_mr_sidecar".into();
-        }
-    }
-    if (c.mr == FileState::WellFormedDiffers && (any(&[Target::Mr], &LOSSY) || any(&[Target::Full], &ANYK)))
-        || (c.comp == FileState::WellFormedDiffers && (any(&[Target::Comp], &LOSSY) || any(&[Target::Full], &ANYK)))
-    {
+    if (c.mr == FileState::WellFormedDiffers && any(&[Target::Mr], &LOSSY)) || (c.comp == FileState::WellFormedDiffers && any(&[Target::Comp], &LOSSY)) {
         return "derived_sidecar_wellformed_not_projection".into();
     }
     if (c.mr == FileState::Empty && any(&[Target::Mr], &["TruncLines"])) || (c.comp == FileState::Empty && any(&[Target::Comp], &["TruncLines"])) {
@@ -866,8 +986,8 @@ fn classify_violation(c: &Coherence, fast: &Ans, truth: &Ans, q: &Q, ops: &[Op])
     }
     // the ordinal index is cross-checked only through its last record; an index whose last record is NOT the last
     // message is detected by the readers, so a disagreement in that state would be a new defect, not this class
-    if (c.compidx == FileState::WellFormedDiffers && (any(&[Target::CompIdx], &LOSSY) || any(&[Target::Comp, Target::Full], &ANYK)))
-        || (c.ord == FileState::WellFormedDiffers && c.ord_tail_coherent && (any(&[Target::Ord], &LOSSY) || any(&[Target::Mr, Target::Full], &ANYK)))
+    if (c.compidx == FileState::WellFormedDiffers && (any(&[Target::CompIdx], &LOSSY) || any(&[Target::Comp], &ANYK)))
+        || (c.ord == FileState::WellFormedDiffers && c.ord_tail_coherent && (any(&[Target::Ord], &LOSSY) || any(&[Target::Mr], &ANYK)))
     {
         return "derived_index_wellformed_not_projection".into();
     }
@@ -876,9 +996,15 @@ fn classify_violation(c: &Coherence, fast: &Ans, truth: &Ans, q: &Q, ops: &[Op])
         // full sidecar whose seqs are not contiguous without noticing (the tail loops and try_replay do notice)
         return "compile_window_read_accepts_noncontiguous_full_sidecar".into();
     }
-    if (c.comp == FileState::Absent || c.mr == FileState::Absent) && !matches!(c.full, FileState::Exact | FileState::Absent) && any(&[Target::Full], &ANYK) && matches!(q, Q::CutPoints { .. } | Q::CompactionStatus { .. } | Q::Compile { .. }) {
+    if (c.comp == FileState::Absent || c.mr == FileState::Absent)
+        && !matches!(c.full, FileState::Exact | FileState::Absent)
+        && c.full_every_line_parses
+        && any(&[Target::Full], &ANYK)
+        && matches!(q, Q::CutPoints { .. } | Q::CompactionStatus { .. } | Q::Compile { .. })
+    {
         // ensure_*_sidecar_best_effort_v1 builds a missing derived sidecar from whatever the full sidecar holds
-        // (line headers only: no seq contiguity, no comparison with the log)
+        // (line headers only: no seq contiguity, no comparison with the log).  A full sidecar with an unparsable
+        // line makes that rebuild fail, and today's callers then answer from the log: not this class.
         return "derived_sidecar_rebuilt_from_unvalidated_full_sidecar".into();
     }
     format!("cache_changes_answer:{qn}")
@@ -1043,14 +1169,18 @@ fn gen_history(r: &mut Rng, n: u64, big: bool) -> Vec<Op> {
 }
 fn gen_fault(r: &mut Rng) -> Op {
     let target = *r.pick(&[Target::Full, Target::Full, Target::Full, Target::Mr, Target::Comp, Target::Comp, Target::CompIdx, Target::Seek, Target::MsgIdx, Target::MrSeek, Target::MrMsgIdx, Target::Ord]);
-    let kind = match r.below(8) {
+    let kind = match r.below(10) {
         0 | 1 => FaultKind::Delete,
         2 => FaultKind::TruncLines(r.range(1, 3)),
         3 => FaultKind::TruncLines(1000),
         4 => FaultKind::TruncMidLine,
         5 => FaultKind::Garbage,
+        6 | 7 => FaultKind::GarbageLine(r.below(6)),
         _ => FaultKind::Rollback(r.range(1, 6)),
     };
+    if r.chance(1, 25) {
+        return Op::LoseDir;
+    }
     Op::Fault { target, kind }
 }
 fn gen_queries(r: &mut Rng, nmsg: u64) -> Vec<Q> {
@@ -1076,15 +1206,19 @@ fn gen_case(r: &mut Rng, i: u64) -> Case {
     for _ in 0..nfaults {
         let at = r.range(1, ops.len() as u64) as usize;
         ops.insert(at, gen_fault(r));
-        // often: an append or a restart right after the fault
+        // often: an append or a restart (or a restart and then an append) right after the fault
         if r.chance(1, 2) {
-            let follow = match r.below(4) {
-                0 => Op::Msg { size: 10 },
-                1 => Op::Checkpoint { msg: r.below(4) },
-                2 => Op::Restart,
-                _ => Op::Cursor { key: 100 },
+            let follow = match r.below(6) {
+                0 => vec![Op::Msg { size: 10 }],
+                1 => vec![Op::Checkpoint { msg: r.below(4) }],
+                2 => vec![Op::Restart],
+                3 => vec![Op::Restart, Op::Msg { size: 10 }],
+                4 => vec![Op::Restart, Op::Checkpoint { msg: r.below(4) }],
+                _ => vec![Op::Cursor { key: 100 }],
             };
-            ops.insert((at + 1).min(ops.len()), follow);
+            for (k, f) in follow.into_iter().enumerate() {
+                ops.insert((at + 1 + k).min(ops.len()), f);
+            }
         }
     }
     let nmsg = ops.iter().filter(|o| matches!(o, Op::Msg { .. })).count() as u64;
@@ -1127,6 +1261,170 @@ fn long_cases() -> Vec<Case> {
         Case { ops: b, queries: all_q(), long: true },
         Case { ops: c, queries: vec![Q::Selection { limit: 10 }, Q::Selection { limit: 1 }, Q::CursorStatus, Q::Rotate { p: Some(2), e: None, m: None }], long: false },
     ]
+}
+
+fn fault(target: Target, kind: FaultKind) -> Op {
+    Op::Fault { target, kind }
+}
+fn fixed_queries(nmsg: u64) -> Vec<Q> {
+    vec![
+        Q::CutPoints { stride: 2, limit: 8 },
+        Q::CompactionStatus { stride: 2 },
+        Q::Replay,
+        Q::CursorStatus,
+        Q::Selection { limit: 10 },
+        Q::Compile { msg: u64::MAX },
+        Q::Compile { msg: nmsg / 2 },
+        Q::BranchCut { sel: Sel::Head },
+    ]
+}
+/// Fault sets x lifecycle position.  The same loss means different things on today's code depending on where in the
+/// authority's life it happens: while the store object is alive nothing re-synchronises the caches (open S3/S4
+/// family); across a restart the first append to the thread rebuilds everything when the full sidecar's tail is not
+/// the log's head (0b0d2b0); a read before any full replay sees the files as the last writer left them.
+/// `all` = the whole product (thorough); otherwise the core rows plus a seed-dependent fifth of the rest.
+fn lifecycle_cases(r: &mut Rng, all: bool) -> Vec<Case> {
+    use FaultKind::*;
+    use Target::*;
+    // 6 messages, cumulative checkpoints at ordinals 2 and 4, a cursor, a decision, a finished run
+    let base = vec![
+        Op::Msg { size: 5 }, Op::Cursor { key: 100 }, Op::Msg { size: 5 }, Op::Checkpoint { msg: 1 }, Op::Msg { size: 5 }, Op::Selection, Op::Msg { size: 5 },
+        Op::Checkpoint { msg: 3 }, Op::Msg { size: 5 }, Op::RunSpawned { msg: 4 }, Op::RunEnded { msg: 0 }, Op::Msg { size: 5 },
+    ];
+    let mr_family = |v: &mut Vec<Op>| {
+        for t in [Mr, MrSeek, MrMsgIdx, Ord] {
+            v.push(fault(t, Delete));
+        }
+    };
+    let mut fsets: Vec<(bool, Vec<Op>)> = vec![]; // (core, faults)
+    fsets.push((true, vec![Op::LoseDir]));
+    fsets.push((true, { let mut v = vec![fault(Full, TruncMidLine)]; mr_family(&mut v); v }));
+    fsets.push((true, vec![fault(Full, TruncMidLine), fault(Comp, Delete), fault(CompIdx, Delete)]));
+    fsets.push((false, vec![fault(Full, Delete)]));
+    fsets.push((false, vec![fault(Full, Garbage)]));
+    fsets.push((false, vec![fault(Full, TruncLines(1))]));
+    fsets.push((false, vec![fault(Full, GarbageLine(0))]));
+    fsets.push((false, { let mut v = vec![fault(Full, Rollback(3))]; mr_family(&mut v); v }));
+    fsets.push((false, { let mut v = vec![]; mr_family(&mut v); v }));
+    fsets.push((false, vec![fault(Comp, Delete), fault(CompIdx, Delete)]));
+    fsets.push((false, vec![fault(Full, TruncLines(2)), fault(Comp, Delete)]));
+    fsets.push((false, vec![fault(Full, Delete), fault(Comp, Delete), fault(CompIdx, Delete), fault(Ord, Delete)]));
+    fsets.push((false, vec![fault(Full, Garbage), fault(Mr, Garbage), fault(Comp, Garbage)]));
+    let tails: Vec<(bool, Vec<Op>)> = vec![
+        (false, vec![]),
+        (false, vec![Op::Restart]),
+        (true, vec![Op::Restart, Op::Msg { size: 5 }]),
+        (true, vec![Op::Restart, Op::Checkpoint { msg: 5 }]),
+        (false, vec![Op::Restart, Op::Cursor { key: 200 }]),
+        (false, vec![Op::Msg { size: 5 }]),
+        (false, vec![Op::Checkpoint { msg: 5 }]),
+        (false, vec![Op::Restart, Op::Msg { size: 5 }, Op::Checkpoint { msg: 6 }]),
+        (false, vec![Op::Restart, Op::Selection, Op::Msg { size: 5 }]),
+    ];
+    let mut out = vec![];
+    for (fcore, fs) in &fsets {
+        for (tcore, tail) in &tails {
+            for pre_restart in [false, true] {
+                let core = *fcore && *tcore && !pre_restart;
+                if !(all || core || r.chance(1, 8)) {
+                    continue;
+                }
+                let mut ops = base.clone();
+                if pre_restart {
+                    ops.push(Op::Restart); // the store object is fresh but alive when the fault hits
+                }
+                ops.extend(fs.clone());
+                ops.extend(tail.clone());
+                let nmsg = ops.iter().filter(|o| matches!(o, Op::Msg { .. })).count() as u64;
+                out.push(Case { ops, queries: fixed_queries(nmsg), long: false });
+            }
+        }
+    }
+    out
+}
+/// A derived file is missing AND the file it is rebuilt from is damaged somewhere before its last record (tail probes
+/// succeed, a front-to-back rebuild fails): "the rebuild failed" must not be read as "nothing is cached".
+fn rebuild_source_cases(r: &mut Rng, all: bool) -> Vec<Case> {
+    use FaultKind::*;
+    use Target::*;
+    // 6 messages, cumulative checkpoints at ordinals 4 and 6 (stride 2: cuts at 6, 4, 2)
+    let base = vec![
+        Op::Msg { size: 5 }, Op::Msg { size: 5 }, Op::Cursor { key: 100 }, Op::Msg { size: 5 }, Op::Msg { size: 5 }, Op::Checkpoint { msg: 3 },
+        Op::Msg { size: 5 }, Op::RunSpawned { msg: 4 }, Op::RunEnded { msg: 0 }, Op::Msg { size: 5 }, Op::Checkpoint { msg: 5 },
+    ];
+    // (source, files derived from it)
+    let pairs: Vec<(bool, Target, Vec<Target>)> = vec![
+        (true, Full, vec![Comp]),
+        (true, Full, vec![Comp, CompIdx]),
+        (false, Full, vec![Mr, MrSeek, MrMsgIdx, Ord]),
+        (false, Full, vec![Mr]),
+        (false, Full, vec![Seek, MsgIdx]),
+        (false, Full, vec![Comp, CompIdx, Mr, MrSeek, MrMsgIdx, Ord]),
+        (false, Comp, vec![CompIdx]),
+        (false, Mr, vec![MrMsgIdx]),
+        (false, Mr, vec![Ord]),
+        (false, Mr, vec![MrSeek, MrMsgIdx, Ord]),
+    ];
+    let damages = [GarbageLine(2), GarbageLine(1), GarbageLine(7), GarbageLine(100), GarbageLine(0), TruncMidLine];
+    let tails: [Vec<Op>; 3] = [vec![], vec![Op::Restart], vec![Op::Cursor { key: 200 }]];
+    let mut out = vec![];
+    for (pcore, src, derived) in &pairs {
+        for (di, d) in damages.iter().enumerate() {
+            for (ti, tail) in tails.iter().enumerate() {
+                let core = *pcore && di < 3 && ti == 0;
+                if !(all || core || r.chance(1, 6)) {
+                    continue;
+                }
+                let mut ops = base.clone();
+                ops.push(fault(*src, *d));
+                for t in derived {
+                    ops.push(fault(*t, Delete));
+                }
+                ops.extend(tail.clone());
+                out.push(Case { ops, queries: fixed_queries(6), long: false });
+            }
+        }
+    }
+    out
+}
+/// Compile anchors swept over EVERY message of threads whose messages+runs sidecar is 1.2x - 4x a doubling window of
+/// the tail scan (256 KiB, 512 KiB, .. 8 MiB), built from a few dozen large messages: an incomplete tail window may
+/// be handed to the compiler only when it provably holds the 16 messages at or below the cut.  No cache fault.
+fn anchor_sweep_cases(thorough: bool) -> Vec<Case> {
+    // (messages, bytes per message, every k-th message gets a finished run, checkpoint after message c)
+    let mut shapes: Vec<(u64, u64, u64, u64)> = vec![
+        (40, 20_000, 1, 7),  // ~800 KiB: 3.1 x 256 KiB, 1.6 x 512 KiB (the seed's shape)
+        (36, 9_000, 3, 30),  // ~330 KiB: 1.3 x 256 KiB; > 16 messages inside the first window
+        (44, 30_000, 2, 3),  // ~1.3 MiB: 2.6 x 512 KiB, 1.3 x 1 MiB
+    ];
+    if thorough {
+        shapes.push((48, 60_000, 2, 20)); // ~2.8 MiB: 2.8 x 1 MiB, 1.4 x 2 MiB
+        shapes.push((40, 150_000, 4, 5)); // ~5.9 MiB: 2.9 x 2 MiB, 1.5 x 4 MiB
+        shapes.push((36, 330_000, 5, 11)); // ~11.6 MiB: 2.9 x 4 MiB, 1.45 x 8 MiB
+        shapes.push((30, 1_100_000, 7, 2)); // ~32 MiB: 4 x 8 MiB (beyond the last window: window / replay producers)
+    }
+    let mut out = vec![];
+    for (n, size, run_every, ckpt_after) in shapes {
+        let mut ops = vec![];
+        for i in 0..n {
+            ops.push(Op::Msg { size });
+            if i % run_every == 0 {
+                ops.push(Op::RunSpawned { msg: i });
+                ops.push(Op::RunEnded { msg: u64::MAX }); // see build(): the newest run
+            }
+            if i == ckpt_after {
+                ops.push(Op::Checkpoint { msg: i / 2 });
+            }
+            if i % 5 == 4 {
+                ops.push(Op::SideFx);
+            }
+        }
+        let mut queries: Vec<Q> = (0..n).map(|i| Q::Compile { msg: i }).collect();
+        queries.push(Q::CutPoints { stride: 4, limit: 8 });
+        queries.push(Q::CompactionStatus { stride: 4 });
+        out.push(Case { ops, queries, long: true });
+    }
+    out
 }
 
 fn corpus_cases() -> Vec<Case> {
@@ -1263,6 +1561,7 @@ struct Outcome {
     writer_checks: u64,
     writer_violations: Vec<(usize, Target, String)>,
     ord_steps: Vec<String>,
+    prov: Prov,
 }
 fn run_case(case: &Case) -> Outcome {
     let b = build(case);
@@ -1300,7 +1599,7 @@ fn run_case(case: &Case) -> Outcome {
         hung = fast == Ans::Hang || truth == Ans::Hang;
         results.push((q.clone(), fast, truth));
     }
-    Outcome { results, abs, full, comp, ord_term, coh, messages: b.messages.clone(), op_errors: b.op_errors, writer_checks: b.writer_checks, writer_violations: b.writer_violations.clone(), ord_steps: b.ord_steps.clone() }
+    Outcome { results, abs, full, comp, ord_term, coh, messages: b.messages.clone(), op_errors: b.op_errors, writer_checks: b.writer_checks, writer_violations: b.writer_violations.clone(), ord_steps: b.ord_steps.clone(), prov: b.prov.clone() }
 }
 
 fn case_json(c: &Case) -> Value {
@@ -1359,6 +1658,12 @@ fn main() {
         cases.extend(long_cases());
         let n = if a.thorough() { 1200 } else { 110 };
         let mut r = Rng::new(a.seed);
+        cases.extend(anchor_sweep_cases(a.thorough()));
+        {
+            let mut r2 = Rng::new(a.seed ^ 0x5eed_c044);
+            cases.extend(lifecycle_cases(&mut r2, a.thorough()));
+            cases.extend(rebuild_source_cases(&mut r2, a.thorough()));
+        }
         for i in 0..n {
             cases.push(gen_case(&mut r, i));
         }
@@ -1422,7 +1727,7 @@ fn main() {
         let out = run_case(case);
         res.evaluations += 1;
         res.bump_by("op_errors", out.op_errors);
-        let nf = case.ops.iter().filter(|o| matches!(o, Op::Fault { .. })).count();
+        let nf = case.ops.iter().filter(|o| matches!(o, Op::Fault { .. } | Op::LoseDir)).count();
         res.bump(&format!("faults={}", nf.min(4)));
         res.bump(&format!("frames={}", match out.abs.truth.len() { 0..=5 => "1-5", 6..=15 => "6-15", 16..=40 => "16-40", 41..=9999 => "41-9999", _ => "10000+" }));
         res.bump(&format!("full={:?}", out.coh.full));
@@ -1433,6 +1738,9 @@ fn main() {
             if let Op::Fault { target, kind } = op {
                 res.bump(&format!("fault:{:?}", target));
                 res.bump(&format!("kind:{}", format!("{:?}", kind).split('(').next().unwrap()));
+            }
+            if matches!(op, Op::LoseDir) {
+                res.bump("fault:LoseDir");
             }
         }
         if (nf > 0 || case.long) && distinct.add(&serde_json::to_string(&case_json(case)).unwrap()) {}
@@ -1453,6 +1761,11 @@ fn main() {
         }
         let mut ord_term = Some(format!("[{}]", out.ord_steps.join("; ")));
         res.bump_by("ord_index_write_steps_in_model", out.ord_steps.len() as u64);
+        res.bump_by("prov:resync_positions(first append after restart, full sidecar tail != log head)", out.prov.resync_at.len() as u64);
+        res.bump_by("prov:resync_positions_where_files_stayed_off_projection", out.prov.resync_not_observed.len() as u64);
+        if out.prov.tracked && !out.prov.live.is_empty() {
+            res.bump("prov:cases_with_live_faults_at_query_time");
+        }
         let nmsgs = out.messages.len() as u64;
         let counts_intact = out.coh.mr == FileState::Exact && out.coh.ord == FileState::Exact;
         for (q, fast, truth) in &out.results {
@@ -1509,9 +1822,12 @@ fn main() {
             };
             if bad {
                 let which = if matches!(truth, Ans::Hang | Ans::Panic) && !matches!(fast, Ans::Hang | Ans::Panic) { truth } else { fast };
-                let class = classify_violation(&out.coh, which, truth, q, &case.ops);
+                let class = classify_violation(&out.coh, which, truth, q, &out.prov);
                 *seen_classes.entry(class.clone()).or_insert(0) += 1;
-                let what = format!("{:?}: caches as found => {}   caches removed => {}", q, short(&fast.json()), short(&truth.json()));
+                let what = format!(
+                    "{:?}: caches as found => {}   caches removed => {}   [files: full={:?} mr={:?} comp={:?} comp.idx={:?} msgord={:?}; faults today's code has not reconciled: {:?}; re-sync positions {:?} (not observed at {:?})]",
+                    q, short(&fast.json()), short(&truth.json()), out.coh.full, out.coh.mr, out.coh.comp, out.coh.compidx, out.coh.ord, out.prov.live, out.prov.resync_at, out.prov.resync_not_observed
+                );
                 // every model case of this query is flagged (so a model disagreement there is explained);
                 // the shrunk replay is attached to the first witness of each class
                 let first = seen_classes[&class] == 1;
@@ -1560,7 +1876,7 @@ fn shrink_case(case: &Case, q: &Q, class: &str) -> Value {
                 (Ans::Err(x), Ans::Err(y)) => x != y,
                 _ => true,
             };
-            bad && classify_violation(&out.coh, f, t, qq, ops) == cls
+            bad && classify_violation(&out.coh, f, t, qq, &out.prov) == cls
         })
     });
     case_json(&Case { ops, queries: vec![q.clone()], long: false })
